@@ -467,7 +467,7 @@ impl<'a> Sim<'a> {
             let (fs_arc, now) = {
                 let world = self.world.borrow();
                 let host = world.hosts.get(&addr).expect("missing host");
-                (Arc::clone(&host.fs), host.timer.since_epoch())
+                (Arc::clone(&host.fs), host.timer.since_epoch_at_tick_start())
             };
             #[cfg(feature = "unstable-io_uring")]
             let iou_arc = {
